@@ -85,6 +85,75 @@ func icCallsDirect(root *pkgSrc, fd *ast.FuncDecl, callee string) bool {
 	return found
 }
 
+// icSenderMarshalsFirst: every method of sseNotificationSender either delegates (`return <recv>.SendCustomNotification(…)`,
+// the stream not mentioned) or has, among its top-level statements, `x, err := json.Marshal(…)` directly followed by
+// `if err != nil { return … }` with the stream (<recv>.writer / .sseWriter / .flusher) not mentioned up to there, and
+// afterwards exactly one use of <recv>.writer: `<recv>.sseWriter.WriteEvent(<recv>.writer, sseutil.Event{… Data: x …})`.
+// Both SendCustomNotification and SendNotification must be of the second form.
+func icSenderMarshalsFirst(root *pkgSrc) bool {
+	squeeze := func(n ast.Node) string { return strings.Join(strings.Fields(root.text(n)), "") }
+	marshals := map[string]bool{}
+	for _, fn := range root.sortedFiles() {
+		for _, d := range root.files[fn].Decls {
+			fd, ok := d.(*ast.FuncDecl)
+			if !ok || !strings.HasPrefix(funcName(fd), "sseNotificationSender.") {
+				continue
+			}
+			if fd.Body == nil || len(fd.Recv.List) != 1 || len(fd.Recv.List[0].Names) != 1 {
+				return false
+			}
+			recv := fd.Recv.List[0].Names[0].Name
+			stream := func(t string) bool {
+				return strings.Contains(t, recv+".writer") || strings.Contains(t, recv+".sseWriter") || strings.Contains(t, recv+".flusher")
+			}
+			// delegation
+			if len(fd.Body.List) == 1 {
+				if rs, ok := fd.Body.List[0].(*ast.ReturnStmt); ok && len(rs.Results) == 1 {
+					if c, ok := rs.Results[0].(*ast.CallExpr); ok && root.text(c.Fun) == recv+".SendCustomNotification" && !stream(squeeze(rs)) {
+						continue
+					}
+				}
+			}
+			idx, data := -1, ""
+			for i, st := range fd.Body.List {
+				as, ok := st.(*ast.AssignStmt)
+				if !ok || len(as.Lhs) != 2 || len(as.Rhs) != 1 {
+					continue
+				}
+				if c, ok := as.Rhs[0].(*ast.CallExpr); ok && root.text(c.Fun) == "json.Marshal" && root.text(as.Lhs[1]) == "err" {
+					idx, data = i, root.text(as.Lhs[0])
+					break
+				}
+			}
+			if idx < 0 || idx+1 >= len(fd.Body.List) {
+				return false
+			}
+			guard, ok := fd.Body.List[idx+1].(*ast.IfStmt)
+			if !ok || squeeze(guard.Cond) != "err!=nil" || guard.Else != nil || len(guard.Body.List) != 1 {
+				return false
+			}
+			if _, ok := guard.Body.List[0].(*ast.ReturnStmt); !ok {
+				return false
+			}
+			for _, st := range fd.Body.List[:idx+2] {
+				if stream(squeeze(st)) {
+					return false
+				}
+			}
+			post := ""
+			for _, st := range fd.Body.List[idx+2:] {
+				post += squeeze(st) + ";"
+			}
+			if strings.Count(post, recv+".writer") != 1 || !strings.Contains(post, recv+".sseWriter.WriteEvent("+recv+".writer,sseutil.Event{") ||
+				!(strings.Contains(post, "Data:"+data+",") || strings.Contains(post, "Data:"+data+"}")) || strings.Contains(post, recv+".flusher") {
+				return false
+			}
+			marshals[fd.Name.Name] = true
+		}
+	}
+	return marshals["SendCustomNotification"] && marshals["SendNotification"]
+}
+
 func genInCall(root *pkgSrc) {
 	// ---- server side: writer objects on the POST-SSE stream
 	senderVal := icWriterFieldValue(root, "newSSENotificationSender", "sseNotificationSender")
@@ -232,6 +301,7 @@ func genInCall(root *pkgSrc) {
 	fmt.Fprintf(&b, "/-- independent event-id counters on one POST-SSE stream (0 = not recognised). -/\ndef icPostStreamWriters : Nat := %d\n", writers)
 	fmt.Fprintf(&b, "/-- client: handleSSEResponse → processEventData → handleNotificationMessage → handler(...) without `go`. -/\ndef icDispatchSync : Bool := %s\n", leanBool(syncDispatch))
 	fmt.Fprintf(&b, "/-- client: every successful return of the read loop is at EOF or under `len(handlers) == 0`. -/\ndef icDrainWithHandlers : Bool := %s\n", leanBool(drain))
+	fmt.Fprintf(&b, "/-- server: the sender marshals the whole notification (`json.Marshal`, error ⇒ return) before it touches the stream; the event data is that byte slice. -/\ndef icMarshalBeforeWrite : Bool := %s\n", leanBool(icSenderMarshalsFirst(root)))
 	b.WriteString("end Mcp.Gen\n")
 	writeIfChanged("InCallFacts.lean", b.String())
 }
